@@ -69,7 +69,8 @@ var startStates = []startState{
 
 // world is the reference model.
 type world struct {
-	docs map[string]*sbom.Document
+	docs        map[string]*sbom.Document
+	lastStoreOK bool // the last store operation returned no error
 }
 
 // applyOp runs one operation on the real backend and checks it against the model. Returns violation text.
@@ -154,6 +155,7 @@ func applyOp(t *engine.T, st startState, sandbox, dir string, w *world, o op, fa
 		} else if res.Err != nil && !faulted {
 			return "store-should-succeed", fmt.Sprintf("%s failed: %v", o, res.Err)
 		}
+		w.lastStoreOK = res.Err == nil
 		if res.Err == nil {
 			w.docs[o.ID] = d
 			if fi, err := os.Stat(dir); err != nil || !fi.IsDir() {
@@ -242,6 +244,10 @@ func runHistory(t *engine.T, st startState, h []op, faultStep int, faultErr erro
 			res := doRetrieve(dir, o.ID)
 			if res.Exit || res.Panic != "" {
 				return engine.Violate("process-exit", "after-fault", "start=%s history=%v fault at step %d (%v): retrieving the entry afterwards %s", st.Name, h, faultStep, faultErr, res.class())
+			}
+			if w.lastStoreOK && o.ID != "" && (res.Err != nil || !equalDocs(res.Doc, docVariant(o.Doc, o.ID))) {
+				// the store claimed success although an operation inside it failed: it must then really have stored the document
+				return engine.Violate("retrieve-after-store", "after-fault", "start=%s history=%v fault at step %d (%v): Store returned no error, but retrieving the entry afterwards gives %s (error %v) instead of the stored document", st.Name, h, faultStep, faultErr, res.class(), res.Err)
 			}
 			if res.Err == nil && o.ID != "" {
 				isOld := snapshot[o.ID] != nil && equalDocs(res.Doc, snapshot[o.ID])
